@@ -151,7 +151,7 @@ def part_a(draw):
     if draw(st.booleans()):
         locale, lang = "en", "en"
     else:
-        locale, lang = locs[draw(st.integers(0, len(locs) - 1))]
+        locale, lang = draw(st.sampled_from(locs))
     hm = draw(st.one_of(st.none(), st.none(), st.tuples(st.integers(0, 23), st.integers(0, 59)).map(list)))
     return {"ymd": draw(ymds()), "sep": draw(st.sampled_from(SEPS)), "locale": locale, "lang": lang,
             "plo": draw(st.sampled_from([None, True, False])), "order": order, "written": None, "hm": hm}
@@ -160,7 +160,7 @@ def part_a(draw):
 @st.composite
 def part_b(draw):
     locs = data.all_locales()
-    locale, lang = locs[draw(st.integers(0, len(locs) - 1))]
+    locale, lang = draw(st.sampled_from(locs))
     written = draw(st.one_of(st.none(), st.none(), st.sampled_from(["DMY", "MDY"])))
     hm = draw(st.one_of(st.none(), st.none(), st.tuples(st.integers(0, 23), st.integers(0, 59)).map(list)))
     return {"ymd": draw(ymds()), "sep": draw(st.sampled_from(SEPS)), "locale": locale, "lang": lang,
